@@ -247,8 +247,23 @@ pub fn strategy() -> impl Strategy<Value = QCase> + Clone {
     let readers = || vec(prop_oneof![2 => Just(0u8), 4 => Just(1u8), 1 => 2u8..4], 1..=5);
     let burst = || prop_oneof![2 => Just(1u8), 3 => 2u8..=5];
     let dg = (vec(any::<u16>(), 0..10), vec(any::<u16>(), 0..10), readers(), readers(), burst(), burst());
-    (any::<bool>(), tcfg(), tcfg(), vec(stream(), 0..6), dg, vec(probe(), 0..4), vec(probe(), 0..4), close)
-        .prop_map(|(iour, a, b, streams, (d0, d1, r0, r1, b0, b1), p0, p1, close)| {
+    // a swarm: several more small, eager streams of the first stream's side and direction, so that more
+    // openers than the stream limit are blocked in `open_*_wait` at once (each actor has its own waker) and
+    // several credits come back close together
+    let swarm = prop_oneof![3 => Just(0u8), 1 => 3u8..=8];
+    (any::<bool>(), tcfg(), tcfg(), (vec(stream(), 0..6), swarm), dg, vec(probe(), 0..4), vec(probe(), 0..4), close)
+        .prop_map(|(iour, a, b, (mut streams, swarm), (d0, d1, r0, r1, b0, b1), p0, p1, close)| {
+            if swarm > 0 && !streams.is_empty() {
+                let mut t = streams[0].clone();
+                t.len = 2048 + t.len % 2000; // 1..~180 bytes
+                t.resp = 2048 + t.resp % 2000;
+                t.wpace = Pace::Eager;
+                t.rpace = Pace::Eager;
+                t.finish = true;
+                for _ in 0..swarm {
+                    streams.push(t.clone());
+                }
+            }
             bound(QCase { iour, cfg: [a, b], streams, dgrams: [d0, d1], dgram_readers: [r0, r1], dgram_burst: [b0, b1], probes: [p0, p1], close })
         })
         .sboxed()
@@ -319,6 +334,30 @@ pub fn regressions() -> Vec<(&'static str, QCase)> {
                 dgram_readers: [vec![1, 1, 0], vec![1, 1, 1]],
                 dgram_burst: [2, 3],
                 probes: [all_probes.clone(), all_probes.clone()],
+                close: ClosePoint { when: When::After, what: What::Connection, by_client: true },
+            },
+        ),
+        (
+            // more openers than the stream limit, all of one side and direction, each in its own task: every one
+            // of them has to be woken when credit comes back (several credits can share one MAX_STREAMS frame)
+            "swarm-of-openers-over-the-stream-limit",
+            QCase {
+                iour: true,
+                cfg: [t(Win::Default, Win::Default, 2), t(Win::Default, Win::Default, 2)],
+                streams: (0..9)
+                    .map(|i| {
+                        let mut s = st(i != 8, i == 8, 2100 + 40 * i as u16, 2100);
+                        s.wops = vec![];
+                        s.rops = vec![ROp::ToEnd];
+                        s.wpace = Pace::Eager;
+                        s.rpace = Pace::Eager;
+                        s
+                    })
+                    .collect(),
+                dgrams: [vec![], vec![]],
+                dgram_readers: one_looping_reader(),
+                dgram_burst: [0, 0],
+                probes: [vec![], vec![]],
                 close: ClosePoint { when: When::After, what: What::Connection, by_client: true },
             },
         ),
